@@ -547,14 +547,16 @@ namespace bloch::runtime {
         m_gcThreadStarted = false;
         m_allocSinceGc = 0;
         m_sim = QasmSimulator{m_collectQasmLog};
+        // Static field initialisers may call top-level functions, so the function table has to
+        // be complete before the class table is built and static storage is initialised.
+        for (auto& fn : program.functions) {
+            m_functions[fn->name] = fn.get();
+        }
         bool hasClasses = !program.classes.empty();
         if (hasClasses) {
             buildClassTable(program);
             for (auto& kv : m_classTable) initStaticFields(kv.second.get());
             ensureGcThread();
-        }
-        for (auto& fn : program.functions) {
-            m_functions[fn->name] = fn.get();
         }
         auto it = m_functions.find("main");
         if (it != m_functions.end()) {
